@@ -1293,15 +1293,9 @@ func (eng) Execute(mode string, c *hx.Case) (*hx.Result, error) {
 	return execHistory(mode, c)
 }
 
-// alreadyFailing: hx's supervisor restarts the worker with -from N (N > 0) only after a worker died or was killed
-var alreadyFailing = func() bool {
-	for i, a := range os.Args {
-		if (a == "-from" || a == "--from") && i+1 < len(os.Args) && os.Args[i+1] != "0" {
-			return true
-		}
-	}
-	return false
-}()
+// alreadyFailing: hx's supervisor sets HX_AFTER_FAILURE=1 for the workers it starts after a worker died or was killed
+// (workers are also recycled every 150 cases in a healthy run, so "-from N > 0" alone no longer means a failure)
+var alreadyFailing = os.Getenv("HX_AFTER_FAILURE") == "1"
 
 func main() {
 	// Descriptors of table files written by a database stay open in this process after the tables are gone (they show
